@@ -34,7 +34,7 @@ class H(explore.Harness):
     def __init__(self, p):
         self.p = p
         self.alphabet = p["alphabet"]
-        self.rig = IpRig(seed=p.get("seed", 0), auto=True)
+        self.rig = IpRig(seed=p.get("seed", 0), auto=True, env=p.get("env"))
         self.loop, self.net, self.pairing = self.rig.loop, self.rig.net, self.rig.pairing
         self.viol = []
         self.cut_armed = False
@@ -366,6 +366,9 @@ def run(ctx):
         (dict(alphabet=ALPH_EVENTS, max_drops=1, raiser="partial"), 4 if quick else 6),
         (dict(alphabet=["R+", "ev1", "ev2", "L2+", "drop"], max_drops=1, raiser="object"), 4 if quick else 5),
         (dict(alphabet=ALPH_OFFLINE, max_drops=2), 4 if quick else 6),
+        # other environments: byte-wise reads with tiny blocks and chunked lower-case HTTP; reads ending inside a block
+        (dict(alphabet=["sub:A", "unsub:A", "drop", "ev1", "ev2", "L2+", "ev-empty"], max_drops=1, env=dict(delivery="bytes", frames=[7], http="chunked-lower")), 4 if quick else 5),
+        (dict(alphabet=["sub:C", "drop", "ev1", "ev2", "ev-nonjson", "R+"], max_drops=1, raiser="partial", env=dict(delivery="3/4", frames=[60], http="chunked-2")), 4 if quick else 5),
         # an accessory that refuses notifications for one characteristic of the request: 207 with a row for every characteristic
         (dict(alphabet=["sub:A", "sub:C", "unsub:A", "drop", "ev1"], max_drops=2, refuse=[(2, 10)]), 4 if quick else 6),
         (dict(alphabet=["sub:B", "sub:C", "unsub:B", "drop", "offline", "online"], max_drops=2, refuse=[(1, 10)]), 4 if quick else 5),
